@@ -745,7 +745,7 @@ fn sweep(maxlen: usize, full: bool) {
     }
     let fill = [b'a', b'v', b'n'];
     let mut store = vec![0u8; maxlen + 512];
-    let base = (64 - store.as_ptr() as usize % 64) % 64;
+    let base = 64 + (64 - store.as_ptr() as usize % 64) % 64;
     let mut check = |be: u8, cls: u8, align: usize, data: &[u8], evals: &mut u64, fails: &mut u64, store: &mut Vec<u8>| {
         let off = base + align;
         store[off..off + data.len()].copy_from_slice(data);
@@ -758,6 +758,27 @@ fn sweep(maxlen: usize, full: bool) {
                 *fails += 1;
                 if *fails <= 20 {
                     println!("SWEEP-FAIL {} {} {} {} {} {}", be, cls, align, if data.is_empty() { "-".to_string() } else { hex(data) }, got, want);
+                }
+            }
+        }
+        // the same data with the scanner ENTERED MID-BUFFER: `start` bytes (in-class filler ending in CR LF, as after an
+        // obsolete line fold) are already consumed and not committed; the scanner must not look at them again
+        if (data.len() + align) % 4 == 0 && off >= 40 {
+            for &start in &[2usize, 9, 33] {
+                let o2 = off - start;
+                for k in 0..start {
+                    store[o2 + k] = if k + 2 >= start { if k + 2 == start { b'\r' } else { b'\n' } } else { fill[cls as usize] };
+                }
+                if let Some(got) = httparse::_verif::scan_from(be, cls, &store[o2..off + data.len()], start) {
+                    *evals += 1;
+                    let want = start + first_out(cls, data);
+                    if got != want {
+                        *fails += 1;
+                        if *fails <= 20 {
+                            println!("SWEEP-FAIL {} {} {} {} {} {}", be, cls, align,
+                                     hex(&store[o2..off + data.len()]), got, want);
+                        }
+                    }
                 }
             }
         }
